@@ -33,8 +33,8 @@ ASSUMPTIONS = [
     "_create_odesys parameter_expressions are modelled for string-named rate constants only",
 ]
 
-QUICK = ["main_q", "feeds_q", "sys_q", "full_q"]
-THOROUGH = ["cfg_t", "comp_t", "sys_t", "sys3_t", "full_t", "orders_t", "const_t", "constw_t", "sym_t", "uk2_t", "feedmap_t", "hist_t", "forms_t"]
+QUICK = ["main_q", "feeds_q", "sys_q", "full_q", "zero_q"]
+THOROUGH = ["cfg_t", "comp_t", "sys_t", "sys3_t", "full_t", "orders_t", "const_t", "constw_t", "sym_t", "uk2_t", "feedmap_t", "hist_t", "forms_t", "zero_t"]
 # coverage (vacuity guard) is read on the smallest slice; it takes all four actions
 ACTIONS = {"full_q": ["OAdd", "OState", "OFeed", "GenBuild"], "full_t": ["OAdd", "OState", "OFeed", "GenBuild"]}
 
